@@ -68,6 +68,9 @@ fn main() {
         "ztext" => streams::ztext::run_rendered(&mut r, n, &mut out),
         "ztext-roundtrip" => streams::ztext::run_roundtrip(&mut r, n, &mut out),
         "ztext-fuzz" => streams::ztext::run_fuzz(&mut r, n, &mut out),
+        "server-fwd" => streams::server::run_forward(&mut r, n, &mut out),
+        "bins-zone" => streams::bins::run(&mut r, n, true, &mut out),
+        "bins-hosts" => streams::bins::run(&mut r, n, false, &mut out),
         "reload-blocked" => streams::server::run_reload_blocked(&mut r, n, &mut out),
         other => {
             eprintln!("unknown stream {other}");
